@@ -28,7 +28,8 @@ import (
 // autoreceive stream (C09): the receive path of every embedded method on a real node.
 //
 // One history = one node under one spork regime (0..3 sporks activated in the order accelerator, bridge&liquidity,
-// htlc). For every contract x method the history generates call data from four generators (canonical valid,
+// htlc) - or, in the spork-switch scenarios (runSporkSwitch), a node on which the three sporks are enforced during the
+// history in one of the six orders with calls in flight across every enforcement height. For every contract x method the history generates call data from four generators (canonical valid,
 // boundary integers, hostile ABI, valid-but-semantically-wrong), delivers each call through the template path
 // (Supervisor.GenerateFromTemplate, which re-packs the data) or as an externally built and signed block through
 // the gossip path (Supervisor.ApplyBlock), and for every ACCEPTED send drives the producer path itself:
